@@ -151,7 +151,7 @@ class Check:
         return verdicts
 
     # ---- verdict handling ------------------------------------------------------
-    def absorb(self, verdicts: list[dict], by_id: dict, what=lambda rec: ""):
+    def absorb(self, verdicts: list[dict], by_id: dict, raw: dict | None = None):
         """Total verdicts: ok | unspec | dev:<Dev_id> | violation:<clause>."""
         counts: dict[str, int] = {}
         for v in verdicts:
@@ -167,7 +167,9 @@ class Check:
                     self.known[dev].setdefault("_example", {"verdict": v, "record": rec})
                     continue
                 tag = "violation:unlisted-deviation:" + dev
-            self.violations.append({"verdict": v, "record": rec, "clause": tag.split(":", 1)[-1]})
+            self.violations.append(
+                {"verdict": v, "record": rec, "clause": tag.split(":", 1)[-1], "case": (raw or {}).get(v["id"])}
+            )
         for k, n in counts.items():
             self.coverage.setdefault("verdicts", {})
             self.coverage["verdicts"][k] = self.coverage["verdicts"].get(k, 0) + n
@@ -264,3 +266,28 @@ def drive(modname: str, fn: str, cases: list[dict], procs: int = NPROC, chunk: i
     if bad:
         raise tlc.MachineryError(f"driver {modname}.{fn} failed on {len(bad)} cases, first: {bad[0]}")
     return obs
+
+
+def replay(pid: str, path: str, modname: str, judge_module: str, prepare=None) -> int:
+    """Re-run exactly the cases stored in a replay file: drive the real code again and let
+    TLC judge again. Exit 1 (with VIOLATION lines) if any of them still fails."""
+    with open(path) as f:
+        rp = json.load(f)
+    cases = [c["case"] for c in rp["cases"] if c.get("case")]
+    if not cases:
+        print(f"replay file {path} holds no re-runnable cases")
+        return 2
+    chk = Check(pid, "quick", 0, "exploration")
+    if prepare:
+        prepare(chk, cases)
+    obs = drive(modname, "drive_case", cases)
+    verdicts = chk.judge(judge_module, obs)
+    bad = 0
+    for v in verdicts:
+        print(json.dumps(v))
+        if v["v"].startswith("violation") or (v["v"].startswith("dev:") and v["v"][4:] not in chk.known):
+            bad += 1
+    if bad:
+        print(f"VIOLATION property={pid} replay={path}")
+    chk.cleanup()
+    return 1 if bad else 0
